@@ -282,6 +282,7 @@ type splicer struct {
 	ret  []*Term
 	out  map[int]*Term
 	args []*Term
+	recv *Term // receiver of the spliced call (for (out call -1))
 	okT  *Term // value of (ok call): #true, #false or (ok inner-call); nil if the callee has no error result
 }
 
@@ -302,8 +303,11 @@ func (sp *splicer) rw(t *Term) *Term {
 			if o, ok := sp.out[i]; ok {
 				return o
 			}
-			if i < len(sp.args) {
+			if i >= 0 && i < len(sp.args) {
 				return stripAddr(sp.args[i])
+			}
+			if i == -1 && sp.recv != nil {
+				return stripAddr(sp.recv) // the receiver was not written on this path of the callee
 			}
 		}
 	case t.Op == "ok" && len(t.A) == 1 && sp.okT != nil && t.A[0].String() == sp.rkey:
@@ -565,7 +569,7 @@ func (p *Prog) spliceFrom(f *Func, pa *Path, from int) []*Path {
 				}
 			}
 		}
-		sp := &splicer{p: p, rkey: rkey, out: map[int]*Term{}, args: call.CI.args}
+		sp := &splicer{p: p, rkey: rkey, out: map[int]*Term{}, args: call.CI.args, recv: call.CI.recv}
 		for _, r := range q.Ret {
 			sp.ret = append(sp.ret, sub(r))
 		}
